@@ -516,9 +516,28 @@ class Canon:
                 if isinstance(n.func.value, ast.Name) and n.func.value.id == "heapq" and n.args \
                         and isinstance(n.args[0], ast.Name):
                     mutated.add(n.args[0].id)
+        # ... unless the local merely names an object that exists already (``trunk = rectangles[0]``: a path of attributes and
+        # subscripts, nothing is built): mutating through the alias is mutating that object, and the alias can be looked through
+        alias_defs: dict[str, list] = {}
+        for n in ast.walk(self.fi.node):
+            if isinstance(n, ast.Assign) and len(n.targets) == 1 and isinstance(n.targets[0], ast.Name):
+                alias_defs.setdefault(n.targets[0].id, []).append(n.value)
+            elif isinstance(n, ast.AnnAssign) and n.value is not None and isinstance(n.target, ast.Name):
+                alias_defs.setdefault(n.target.id, []).append(n.value)
+
+        def is_path(e: ast.AST) -> bool:
+            if isinstance(e, ast.Name):
+                return True
+            if isinstance(e, ast.Attribute):
+                return is_path(e.value)
+            if isinstance(e, ast.Subscript):
+                return is_path(e.value) and isinstance(e.slice, (ast.Constant, ast.Name)) or \
+                    (is_path(e.value) and isinstance(e.slice, ast.UnaryOp) and isinstance(e.slice.operand, ast.Constant))
+            return False
+        aliases = {nm for nm, vs in alias_defs.items() if len(vs) == 1 and not isinstance(vs[0], ast.Name) and is_path(vs[0])}
         self.mutated = mutated
         for name in mutated:
-            if name in simple:
+            if name in simple and name not in aliases:
                 simple[name] = False
         # a local bound to the result of a call with side effects (or of unknown purity) is not inlined:
         # inlining would duplicate or reorder the effect (``fresh = self.newaux()`` used twice)
@@ -1496,7 +1515,8 @@ def single_defs(block: tuple, keep_identity: bool = True) -> dict:
     canonicaliser chose to inline it."""
     count: dict = {}
     rhs: dict = {}
-    banned: set = set()
+    banned: set = set()          # re-bound locals (augmented, tuple-assigned, loop targets)
+    identity: set = set()        # locals whose object is mutated through them
 
     def rec(x):
         if isinstance(x, tuple) and x:
@@ -1513,19 +1533,19 @@ def single_defs(block: tuple, keep_identity: bool = True) -> dict:
                     banned.add(t)
             # objects with identity: mutated through a method, a store or a heap primitive
             if x[0] == "c" and isinstance(x[1], tuple) and len(x[1]) == 3 and x[1][0] == "a" and x[1][2] in MUTATOR_METHODS:
-                banned.add(x[1][1])
+                identity.add(x[1][1])
             if x[0] == "c" and isinstance(x[1], tuple) and len(x[1]) == 3 and x[1][0] == "a" and x[1][1] == ("g", "heapq") and x[2]:
-                banned.add(x[2][0])
+                identity.add(x[2][0])
             if x[0] in ("set", "del") and len(x) >= 2 and isinstance(x[1], tuple) and x[1] and x[1][0] in ("s", "a") and len(x[1]) == 3:
                 r = x[1][1]
                 while isinstance(r, tuple) and len(r) == 3 and r[0] in ("s", "a"):
                     r = r[1]
-                banned.add(r)
+                identity.add(r)
             if x[0] == "aug" and len(x) == 4 and isinstance(x[2], tuple) and x[2] and x[2][0] in ("s", "a"):
                 r = x[2][1]
                 while isinstance(r, tuple) and len(r) == 3 and r[0] in ("s", "a"):
                     r = r[1]
-                banned.add(r)
+                identity.add(r)
             for y in x:
                 rec(y)
     rec(block)
@@ -1539,9 +1559,23 @@ def single_defs(block: tuple, keep_identity: bool = True) -> dict:
             for y in x:
                 cnt(y)
     cnt(block)
+    def is_path(e) -> bool:
+        if not isinstance(e, tuple) or not e:
+            return False
+        if e[0] in ("p", "self", "v", "g"):
+            return True
+        if e[0] == "a" and len(e) == 3 and isinstance(e[2], str):
+            return is_path(e[1])
+        if e[0] == "s" and len(e) == 3:
+            return is_path(e[1]) and isinstance(e[2], tuple) and e[2][:1] in (("k",), ("v",), ("p",))
+        return False
     out = {}
     for v, e in rhs.items():
-        if count[v] != 1 or v in banned:
+        if count[v] != 1:
+            continue
+        if v in banned:
+            continue
+        if v in identity and not (e[0] in ("a", "s") and is_path(e)):      # an alias of an existing object can be looked through
             continue
         n_uses = uses.get(v, 0) - 1            # minus the occurrence as assignment target
         if keep_identity and n_uses > 1 and _has_effectful_call(e):
@@ -1581,7 +1615,7 @@ class Normalizer:
 
     def __init__(self, raw_block: tuple, keep_identity: bool = True):
         self.rounds: list = []
-        block = _param_versions(_if_convert(_ret_peephole(raw_block)))
+        block = _index_loops(_param_versions(_if_convert(_ret_peephole(raw_block))))
         defs = single_defs(block, keep_identity)
         for _ in range(6):
             if not defs:
@@ -1677,6 +1711,44 @@ def _if_convert(block: tuple) -> tuple:
                 st = ("while", st[1], _if_convert(st[2]), _if_convert(st[3]))
             elif st[0] == "with" and len(st) == 3:
                 st = ("with", st[1], _if_convert(st[2]))
+        out.append(st)
+    return tuple(out)
+
+
+def _index_loops(block: tuple) -> tuple:
+    """``for i in range(a, len(L)): ... L[i] ...`` (the index used for nothing but reading ``L[i]``, ``L`` not re-bound or
+    stored into in the loop) is the loop over the elements ``for x in L[a:]: ... x ...``"""
+    def conv(st):
+        if not (isinstance(st, tuple) and st and st[0] == "for" and len(st) == 5 and not st[4]):
+            return st
+        var, it, body = st[1], st[2], st[3]
+        if not (isinstance(var, tuple) and var[:1] == ("v",) and isinstance(it, tuple) and it[:2] == ("c", ("g", "range")) and not it[3]):
+            return st
+        args = it[2]
+        lo, hi = (k_num(0), args[0]) if len(args) == 1 else ((args[0], args[1]) if len(args) == 2 else (None, None))
+        if hi is None or not (isinstance(hi, tuple) and hi[:2] == ("c", ("g", "len")) and len(hi[2]) == 1):
+            return st
+        seq = hi[2][0]
+        elem = ("s", seq, var)
+        # every use of the index is L[i]; L is neither stored into nor re-bound inside the loop
+        probe = Sigma(raw_subst={elem: ("k", "elem")}).apply(body)
+        if contains(probe, var) or not contains(body, elem):
+            return st
+        if any(x[0] in ("set", "aug", "del", "mset") and contains(x[1] if x[0] != "aug" else x[2], seq) and (x[1] if x[0] != "aug" else x[2]) != elem
+               and not (isinstance(x[1] if x[0] != "aug" else x[2], tuple) and contains(x[1] if x[0] != "aug" else x[2], elem))
+               for x in atoms_of(body, lambda y: y[0] in ("set", "aug", "del", "mset") and len(y) >= 3)):
+            return st
+        it2 = seq if lo == k_num(0) else ("s", seq, ("slice", lo, K_NONE, K_NONE))
+        return ("for", var, it2, Sigma(raw_subst={elem: var}).apply(body), st[4])
+    out = []
+    for st in block:
+        if isinstance(st, tuple) and st:
+            if st[0] == "if" and len(st) == 4:
+                st = ("if", st[1], _index_loops(st[2]), _index_loops(st[3]))
+            elif st[0] == "for" and len(st) == 5:
+                st = conv(("for", st[1], st[2], _index_loops(st[3]), _index_loops(st[4])))
+            elif st[0] == "while" and len(st) == 4:
+                st = ("while", st[1], _index_loops(st[2]), _index_loops(st[3]))
         out.append(st)
     return tuple(out)
 
